@@ -15,6 +15,9 @@
 #define DAG_RECORDER 2
 #include "dag_recorder.c"
 #include "verif_a.h"
+#ifdef C19_PIDAG
+#include "dr_dump.c"
+#endif
 #ifdef VERIF_NATIVE
 #include "options.c"
 #include "papi_counters.c"
@@ -88,6 +91,84 @@ static void sim_end(sim_task *t){ dr_end_task__("f", 8, t->w); close_iv(t); }
 
 static unsigned long long max2(unsigned long long a, unsigned long long b){ return a > b ? a : b; }
 
+#ifdef C19_PIDAG
+/* ---- C19: flatten the recorded DAG with the real dr_make_pi_dag, shrink it with the real dr_copy_pi_dag, and validate both
+   with a structural validator written independently of the library ---- */
+#ifndef CMC
+#define CMC 0
+#endif
+#ifndef CMC2
+#define CMC2 0
+#endif
+#define C19_NMAX 16
+/* environment: qsort according to its contract (typed insertion sort over the edge array, calling the real comparison) */
+void qsort(void *base, size_t n, size_t sz, int (*cmp)(const void *, const void *)){
+  dr_pi_dag_edge *E = (dr_pi_dag_edge *)base; size_t i, j;
+  __CPROVER_assert(sz == sizeof(dr_pi_dag_edge), "VERIF model: qsort is only used on the edge array");
+  for (i = 1; i < n; i++){ dr_pi_dag_edge k = E[i]; j = i;
+    while (j > 0 && edge_cmp(&E[j - 1], &k) > 0){ E[j] = E[j - 1]; j--; }
+    E[j] = k; }
+  (void)cmp;
+}
+static long c19_refs[C19_NMAX];
+static void c19_validate(dr_pi_dag *G, const char *unused){
+  long n = G->n, m = G->m, i, j; (void)unused;
+  CHECK(n >= 1 && n <= C19_NMAX && m >= 0 && m <= 2 * C19_NMAX, "C19 node and edge counts within the harness bound");
+  for (i = 0; i < C19_NMAX; i++) c19_refs[i] = 0;
+  for (i = 0; i < C19_NMAX; i++) if (i < n){
+    dr_pi_dag_node *u = &G->T[i];
+    if (u->info.kind == dr_dag_node_kind_create_task){
+      long c = i + u->child_offset;
+      CHECK(u->child_offset > 0 && c < n, "C19 a create node's child offset refers to a later node inside the DAG");
+      if (c > 0 && c < n){ CHECK(G->T[c].info.kind == dr_dag_node_kind_task, "C19 the child of a create node is a task"); c19_refs[c]++; }
+    } else if (u->info.kind >= dr_dag_node_kind_section){
+      long a = i + u->subgraphs_begin_offset, b = i + u->subgraphs_end_offset;
+      CHECK(u->subgraphs_begin_offset <= u->subgraphs_end_offset, "C19 subgraph range is not reversed");
+      if (u->subgraphs_begin_offset < u->subgraphs_end_offset){
+        CHECK(a > i && b <= n, "C19 subgraph range refers to later nodes inside the DAG");
+        for (j = 0; j < C19_NMAX; j++) if (j >= a && j < b && j < n) c19_refs[j]++;
+        if (b >= 1 && b <= n){ dr_dag_node_kind_t lk = G->T[b - 1].info.kind;
+          CHECK(lk == (u->info.kind == dr_dag_node_kind_task ? dr_dag_node_kind_end_task : dr_dag_node_kind_wait_tasks), "C19 a task ends with an end node, a section with a wait node"); }
+      }
+    } else CHECK(u->info.kind == dr_dag_node_kind_wait_tasks || u->info.kind == dr_dag_node_kind_end_task || u->info.kind == dr_dag_node_kind_other, "C19 node kind is valid");
+    /* edges grouped by source */
+    CHECK(0 <= u->edges_begin && u->edges_begin <= u->edges_end && u->edges_end <= m, "C19 edge range of a node lies inside the edge array");
+    if (i == 0) CHECK(u->edges_begin == 0, "C19 edge ranges start at 0");
+    if (i == n - 1) CHECK(u->edges_end == m, "C19 edge ranges end at m");
+    if (i + 1 < n) CHECK(u->edges_end == G->T[i + 1].edges_begin, "C19 edge ranges of consecutive nodes are contiguous");
+    for (j = 0; j < 2 * C19_NMAX; j++) if (j < m && j >= u->edges_begin && j < u->edges_end) CHECK(G->E[j].u == i, "C19 edges are grouped by source node");
+  }
+  for (i = 1; i < C19_NMAX; i++) if (i < n) CHECK(c19_refs[i] == 1, "C19 every node except the root is the child of exactly one node (reachable, no sharing)");
+  CHECK(c19_refs[0] == 0, "C19 the root is nobody's child");
+  for (j = 0; j < 2 * C19_NMAX; j++) if (j < m){
+    dr_pi_dag_edge *e = &G->E[j];
+    CHECK(e->u >= 0 && e->u < n && e->v >= 0 && e->v < n, "C19 edge endpoints refer to nodes inside the DAG");
+    if (e->u >= 0 && e->u < n && e->v >= 0 && e->v < n){
+      dr_pi_dag_node *a = &G->T[e->u], *b = &G->T[e->v];
+      CHECK(!(a->info.kind >= dr_dag_node_kind_section && a->subgraphs_begin_offset < a->subgraphs_end_offset)
+            && !(b->info.kind >= dr_dag_node_kind_section && b->subgraphs_begin_offset < b->subgraphs_end_offset), "C19 edges connect leaves (intervals or contracted subgraphs)");
+      CHECK(e->kind >= 0 && e->kind < dr_dag_edge_kind_max, "C19 edge kind is valid");
+    }
+    if (j + 1 < m) CHECK(e->u <= G->E[j + 1].u, "C19 edge array is sorted by source");
+  }
+}
+static void c19_flatten_and_validate(dr_dag_node *root){
+  static dr_pi_dag G, G2;
+  dr_make_pi_dag(&G, root, GS.start_clock);
+  c19_validate(&G, "recorded");
+  CHECK(G.T[0].info.t_1 == root->info.t_1 && G.T[0].info.t_inf == root->info.t_inf, "C19 the flattened root carries the recorded totals");
+  /* conversion-time shrinking with its own (concrete) threshold */
+  GS.opts.collapse_max_count = CMC2; GS.opts.uncollapse_min = 0; GS.opts.collapse_max = 0;
+  dr_copy_pi_dag(&G2, &G);
+  c19_validate(&G2, "shrunk");
+  CHECK(G2.n <= G.n, "C19 shrinking never adds nodes");
+  { int k; CHECK(G2.T[0].info.t_1 == G.T[0].info.t_1 && G2.T[0].info.t_inf == G.T[0].info.t_inf, "C19 shrinking preserves work and critical path");
+    for (k = 0; k < dr_dag_node_kind_section; k++) CHECK(G2.T[0].info.logical_node_counts[k] == G.T[0].info.logical_node_counts[k], "C19 shrinking preserves the interval counts");
+    for (k = 0; k < dr_dag_edge_kind_max; k++) CHECK(G2.T[0].info.logical_edge_counts[k] == G.T[0].info.logical_edge_counts[k], "C19 shrinking preserves the edge counts"); }
+  WITNESS_IF(G.n > 1);
+}
+#endif
+
 int main(void){
   int w, i;
   for (w = 0; w < NW; w++){
@@ -100,7 +181,11 @@ int main(void){
   }
   GS.initialized = 1; GS.generation = 1; GS.worker_specific_state_array = WSS; GS.worker_specific_state_array_sz = NW;   /* the fixed-array mechanism of the real lookup */
   GS.opts.node_count_target = 0;
+#ifdef C19_PIDAG   /* the shape of the recorded DAG is fixed per query: contraction by node count with a concrete threshold (0 = none) */
+  GS.opts.collapse_max_count = CMC; GS.opts.uncollapse_min = 0; GS.opts.collapse_max = 0;
+#else
   GS.opts.collapse_max_count = (long)(unsigned)VERIF_CHOICE(); GS.opts.uncollapse_min = nd_ull(); GS.opts.collapse_max = nd_ull();
+#endif
   CLK = 1 + ((unsigned)VERIF_CHOICE() & 0xffff); GS.start_clock = CLK;
 
   sim_task R, A, B, C; dr_dag_node *ca, *cb, *cc;
@@ -176,7 +261,11 @@ int main(void){
   CHECK(root->info.logical_edge_counts[dr_dag_edge_kind_create] == e_create && root->info.logical_edge_counts[dr_dag_edge_kind_create_cont] == e_create
         && root->info.logical_edge_counts[dr_dag_edge_kind_wait_cont] == e_wait && root->info.logical_edge_counts[dr_dag_edge_kind_end] == e_create,
         "C18 numbers of edges by kind (create, create_cont, wait_cont, end)");
+#ifdef C19_PIDAG
+  c19_flatten_and_validate(root);
+#else
   WITNESS_IF(root->subgraphs->n == 0);      /* a fully contracted root is reachable ... */
+#endif
   WITNESS();
   return 0;
 }
